@@ -303,6 +303,8 @@ pub struct C16Scenario {
     pub method: usize,
     pub ms: usize,
     pub depth: usize,
+    /// offer the tour of prepare routes in pools of two as well (thorough)
+    pub routes_everywhere: bool,
 }
 
 fn method_of(i: usize) -> RecyclingMethod {
@@ -344,7 +346,7 @@ struct ClientRef {
 fn significant(log: &[Msg]) -> Vec<Msg> {
     log.iter()
         .filter(|m| match m {
-            Msg::Query(q) => !matches!(q.as_str(), "START TRANSACTION" | "BEGIN" | "COMMIT" | "ROLLBACK"),
+            Msg::Query(q) => !(matches!(q.as_str(), "BEGIN" | "COMMIT" | "ROLLBACK") || q.starts_with("START TRANSACTION") || q.starts_with("SAVEPOINT ") || q.starts_with("RELEASE ") || q.starts_with("ROLLBACK TO ")),
             Msg::Parse { .. } => true,
             _ => false,
         })
@@ -395,6 +397,10 @@ async fn run_inner(sc: &C16Scenario) -> u64 {
             /// two prepares in flight at once on one client (`join!`): for the
             /// same key, or for two keys differing only in their types
             PreparePair(usize, bool),
+            /// the same key prepared through every other route to the client's
+            /// cache: a nested transaction, a savepoint, a built transaction,
+            /// and the GenericClient trait on the client and on a transaction
+            PrepareRoutes(usize),
             CacheClear(usize),
             CacheRemove(usize, usize, usize),
             RegClear,
@@ -420,6 +426,9 @@ async fn run_inner(sc: &C16Scenario) -> u64 {
             ops.push(Op::Prepare(j, 0, 0, false, true));
             ops.push(Op::PreparePair(j, true));
             ops.push(Op::PreparePair(j, false));
+            if j == 0 && (sc.ms == 1 || sc.routes_everywhere) {
+                ops.push(Op::PrepareRoutes(j));
+            }
             ops.push(Op::Take(j));
             ops.push(Op::CacheClear(j));
             ops.push(Op::CacheRemove(j, 0, 1));
@@ -563,6 +572,103 @@ async fn run_inner(sc: &C16Scenario) -> u64 {
                 }
                 if o.statement_cache.size() != refs[&id].keys.len() {
                     bad("cache-size", format!("statement cache of connection {} reports size {} but {} keys are cached", id, o.statement_cache.size(), refs[&id].keys.len()));
+                }
+            }
+            Op::PrepareRoutes(j) => {
+                use deadpool_postgres::GenericClient;
+                let (o, id) = &mut held[j];
+                let id = *id;
+                let q = QUERIES[1];
+                let types = types_of(2);
+                let key = (q.to_string(), types.iter().map(|t| t.oid()).collect::<Vec<u32>>());
+                let n_params = (1..=9).filter(|i| q.contains(&format!("${}", i))).count();
+                let want: Vec<u32> = (0..n_params).map(|i| key.1.get(i).copied().unwrap_or(25)).collect();
+                for route in 0..5u8 {
+                    let before = w(|w| significant(&w.conns[id].log));
+                    let r: Result<tokio_postgres::Statement, Error> = match route {
+                        0 => match o.transaction().await {
+                            Ok(mut tx) => {
+                                let r = match tx.transaction().await {
+                                    Ok(inner) => {
+                                        let r = inner.prepare_typed_cached(q, &types).await;
+                                        let _ = inner.commit().await;
+                                        r
+                                    }
+                                    Err(e) => Err(e),
+                                };
+                                let _ = tx.commit().await;
+                                r
+                            }
+                            Err(e) => Err(e),
+                        },
+                        1 => match o.transaction().await {
+                            Ok(mut tx) => {
+                                let r = match tx.savepoint("sp").await {
+                                    Ok(sp) => {
+                                        let r = sp.prepare_typed_cached(q, &types).await;
+                                        let _ = sp.commit().await;
+                                        r
+                                    }
+                                    Err(e) => Err(e),
+                                };
+                                let _ = tx.commit().await;
+                                r
+                            }
+                            Err(e) => Err(e),
+                        },
+                        2 => match o.build_transaction().read_only(true).start().await {
+                            Ok(tx) => {
+                                let r = tx.prepare_typed_cached(q, &types).await;
+                                let _ = tx.commit().await;
+                                r
+                            }
+                            Err(e) => Err(e),
+                        },
+                        3 => {
+                            let c: &Object<Manager> = o;
+                            GenericClient::prepare_typed_cached(c, q, &types).await
+                        }
+                        _ => match o.transaction().await {
+                            Ok(tx) => {
+                                let r = GenericClient::prepare_typed_cached(&tx, q, &types).await;
+                                let _ = tx.commit().await;
+                                r
+                            }
+                            Err(e) => Err(e),
+                        },
+                    };
+                    let after: Vec<Msg> = w(|w| significant(&w.conns[id].log));
+                    let new: Vec<Msg> = after[before.len().min(after.len())..].to_vec();
+                    let hit = refs[&id].keys.contains(&key);
+                    match r {
+                        Ok(stmt) => {
+                            if hit && !new.is_empty() {
+                                bad("cache-hit-round-trip", format!("route {}: cached statement {:?} caused server traffic {:?}", route, key, new));
+                            }
+                            if !hit {
+                                let ok = new.len() == 1 && matches!(&new[0], Msg::Parse { query, oids, .. } if query == q && *oids == key.1);
+                                if !ok {
+                                    bad("cache-miss-prepare", format!("route {}: preparing {:?} on connection {} sent {:?}", route, key, id, new));
+                                }
+                                refs.get_mut(&id).unwrap().keys.insert(key.clone());
+                            }
+                            let got: Vec<u32> = stmt.params().iter().map(|t| t.oid()).collect();
+                            if got != want {
+                                bad("wrong-statement", format!("route {}: prepare for {:?} returned a statement with parameter types {:?}", route, key, got));
+                            }
+                        }
+                        Err(e) => {
+                            trace!("  route {} prepare failed: {}", route, e);
+                            // the connection is gone or the scripted failure hit this
+                            // route: re-synchronise the reference and stop the tour
+                            o.statement_cache.clear();
+                            refs.get_mut(&id).unwrap().keys.clear();
+                            break;
+                        }
+                    }
+                    if o.statement_cache.size() != refs[&id].keys.len() {
+                        bad("cache-size", format!("route {}: statement cache of connection {} reports size {} but {} keys are cached", route, id, o.statement_cache.size(), refs[&id].keys.len()));
+                    }
                 }
             }
             Op::PreparePair(j, same) => {
@@ -750,7 +856,7 @@ pub fn scenarios(tier: Tier) -> Vec<Scenario> {
                 (true, 1) => 8,
                 (true, _) => 6,
             };
-            let sc = C16Scenario { method, ms, depth };
+            let sc = C16Scenario { method, ms, depth, routes_everywhere: thorough };
             v.push(Scenario::new(
                 &format!("histories/{:?}/ms{}", method_of(method), ms).replace("(\"SELECT custom_check()\")", "").replace("(\" \")", "-blank"),
                 "every history of get / return / take / retain / resize / prepare_cached / prepare_typed_cached (keys differing only in types) / cache clear+remove / registry clear+remove / server closes a connection / server fails the next query",
